@@ -38,7 +38,8 @@ Upd(ob, e) ==
       [] e.e = "new" -> [b EXCEPT !.holds = Hold(b, e.t, e.c)]
       [] e.e = "dial" -> [b EXCEPT !.open = @ \cup {e.s}]
       [] e.e = "sclose" -> [b EXCEPT !.open = @ \ {e.s}]
-      [] e.e = "io" -> [b EXCEPT !.lastio = IF e.t \in Threads THEN <<e.t, e.c>> ELSE <<>>]
+      [] e.e = "io" -> [b EXCEPT !.lastio = IF e.t \in Threads THEN <<e.t, e.c, "io">> ELSE <<>>]
+      [] e.e = "cclose" -> [b EXCEPT !.lastio = <<e.t, e.c, "close">>]        \* HTTPConnection.close() called by e.t
       [] e.e = "put" /\ e.q = 1 -> [b EXCEPT !.queue = IF e.res = "ok" THEN Append(@, e.c) ELSE @, !.holds = Unhold(b, e.t)]
       [] e.e = "swap" -> [b EXCEPT !.ptr = "closed", !.pre = b.parked]
       [] e.e = "end" -> [b EXCEPT !.outs = @ \cup {[o |-> e.out, closed |-> b.ptr = "closed"]},
